@@ -1,3 +1,4 @@
 -- Root of the `NutilsVerif` library: every property's theorem file (setup.sh builds this target).
 import NutilsVerif.Core.Proto
 import NutilsVerif.Props.C15
+import NutilsVerif.Props.C01
